@@ -11,7 +11,7 @@ from __future__ import annotations
 import ast
 
 from ..fold import Unknown, fold_in_fn, fold_name
-from ..minieval import Unsupported
+from ..minieval import Obj, Unsupported
 from ..model import Undecided, walk_fn
 from ..stubrun import RUNTIME_ERRORS, StubContext, line_tokens, run_rule
 
@@ -73,9 +73,32 @@ def rule_directive_line(run, prog, rid="R-7.5"):
                     continue                    # a fatal diagnostic: not silent
                 if isinstance(r, (tuple, list)) and len(r) == 2 and r[0] is True and r[1] != len(line1) and bad is None:
                     bad = (dname, k, r[1], len(line1))
+        # ... and every word the dispatch of run() can select (the `check_<word>` methods of the class, whatever they were
+        # written for): `# <word> ( x ) a` + a second line is claimed up to its NEWLINE or refused with CParsingError
+        ips = prog.classes.get("IsPreprocessorStatement")
+        words = sorted(mn[len("check_"):] for mn in (ips.methods if ips is not None else {}) if mn.startswith("check_"))
+        skipped = {}
+        for w in words:
+            for tail in ([("IDENTIFIER", "x")], ["LPARENTHESIS", ("IDENTIFIER", "x"), "RPARENTHESIS"],
+                         ["LPARENTHESIS", ("IDENTIFIER", "x"), "RPARENTHESIS", "SPACE", ("IDENTIFIER", "a")], []):
+                line1 = ["HASH", ("IDENTIFIER", w)] + (["SPACE"] + tail if tail else []) + ["NEWLINE"]
+                toks = line_tokens(line1, 1, 1) + line_tokens([("IDENTIFIER", "b"), "SEMI_COLON", "NEWLINE"], 2, 1)
+                pre = Obj("PreProcessors", indent=1, _indent=1, macros=[], includes=[], total_ifs=1, total_elifs=0, total_elses=0,
+                          total_ifdefs=0, total_ifndefs=0, skip_define=False)
+                sc = StubContext(prog, toks, history=("IsEmptyLine",), scope="GlobalScope", preproc=pre)
+                n += 1
+                try:
+                    r = run_rule(prog, "IsPreprocessorStatement", sc)
+                except RUNTIME_ERRORS:
+                    continue
+                except Unsupported as e:
+                    skipped.setdefault(w, str(e))         # e.g. the constant-expression parser of #if / #elif: not interpreted
+                    continue
+                if isinstance(r, (tuple, list)) and len(r) == 2 and (r[0] is not True or r[1] != len(line1)) and bad is None:
+                    bad = (w, " ".join(t if isinstance(t, str) else t[1] for t in tail) or "(nothing)", r[1] if r[0] is True else f"no match ({r[0]!r})", len(line1))
     except Unsupported as e:
         raise Undecided(f"IsPreprocessorStatement.run is outside the evaluable subset: {e}")
     run.ob(rid, f"{m.key}::one-line-per-directive", bad is None,
            (f"`# {bad[0]} ... {bad[1]} a` + newline + `b;`: the directive claims {bad[2]} tokens, its line has {bad[3]}: the statement "
             f"on the next line is consumed without being examined by any rule (the lexer can produce {bad[1]})") if bad else "",
-           m.node, evaluations=n, kinds=len(kinds))
+           m.node, evaluations=n, kinds=len(kinds), words_not_interpreted=sorted(skipped))
